@@ -247,4 +247,173 @@ theorem loopK_frame (c : Cfg) (k k1 k2 : K Z) (b0 b1 : UInt8) (n : Nat) (useMask
       rw [e4]
       exact loop_fuel _ _ _ _ F4 (need_le_fuelFor _ _)
 
+/-- reader between two messages -/
+def Idle (k : K Z) : Prop :=
+  k.phase = .header ∧ k.frags = [] ∧ k.partialMsg = [] ∧ k.opcode = none ∧
+  (k.frameFin = true ∨ k.compressed = none)
+
+/-- the message the reader should deliver for a send -/
+def toMsg (s : Send) : Msg :=
+  if s.opcode = 1 then .text s.payload
+  else if s.opcode = 2 then .binary s.payload
+  else if s.opcode = 9 then .ping s.payload
+  else if s.opcode = 10 then .pong s.payload
+  else match s.payload with
+    | b0 :: b1 :: reason => .close (b0.toNat * 256 + b1.toNat) reason
+    | _ => .close 0 []
+
+/-- what may be sent uncompressed to a reader with configuration `c` -/
+def OkPlain (c : Cfg) (s : Send) : Prop :=
+  s.payload.length < 2 ^ 63 ∧
+  (((s.opcode = 1 ∨ s.opcode = 2) ∧ (c.maxMsgSize = 0 ∨ s.payload.length < c.maxMsgSize) ∧
+      (s.opcode = 1 → c.decodeText = true → utf8Valid s.payload = true)) ∨
+   ((s.opcode = 9 ∨ s.opcode = 10) ∧ s.payload.length ≤ 125) ∨
+   (s.opcode = 8 ∧ s.payload.length ≤ 125 ∧
+      (s.payload = [] ∨ ∃ b0 b1 reason, s.payload = b0 :: b1 :: reason ∧
+        closeCodeOk (b0.toNat * 256 + b1.toNat) = true ∧ utf8Valid reason = true)))
+
+/-- bytes of one uncompressed frame as the writer produces them -/
+def plainFrame (useMask : Bool) (s : Send) : Bytes :=
+  frameHeader (0x80 ||| 0 ||| s.opcode) (if useMask then 0x80 else 0) s.payload.length ++
+    wirePayload useMask s.maskKey s.payload
+
+theorem handle_plain (c : Cfg) (k3 : K Z) (s : Send) (hok : OkPlain c s)
+    (hp : k3.partialMsg = []) (ho : k3.opcode = none) (hop : k3.frameOpcode = s.opcode)
+    (hcz : s.opcode ≤ 2 → k3.compressed = some false ∧ k3.frameFin = true) :
+    handleFrame c k3 k3.frameFin k3.frameOpcode s.payload k3.compressed = .ok (deliver k3 (toMsg s)) := by
+  obtain ⟨_, hk⟩ := hok
+  rw [hop]
+  rcases hk with ⟨hd, hsz, hu⟩ | ⟨hpp, hl⟩ | ⟨h8, hl, hcl⟩
+  · have ⟨hc1, hf1⟩ := hcz (by rcases hd with h | h <;> omega)
+    have hne : s.opcode ≠ 0 := by rcases hd with h | h <;> omega
+    have h3 : s.opcode = 1 ∨ s.opcode = 2 ∨ s.opcode = 0 := by rcases hd with h | h <;> simp [h]
+    unfold handleFrame
+    rw [if_pos h3]
+    unfold handleData inflateMsg
+    simp only [hf1, hc1, hp, hne, ho]
+    rcases hd with h | h
+    · have hu' := hu h
+      by_cases hdt : c.decodeText = true
+      · simp [h, toMsg, hdt, hu' hdt, deliver, hp]
+      · simp [h, toMsg, hdt, deliver, hp]
+    · simp [h, toMsg, deliver, hp]
+  · unfold handleFrame
+    rcases hpp with h | h <;> simp [h, toMsg]
+  · unfold handleFrame handleClose
+    rcases hcl with h | ⟨b0, b1, reason, h, hc, hr⟩
+    · simp [h8, h, toMsg]
+    · simp [h8, h, toMsg, hc, hr]
+
+theorem okPlain_opcode {c : Cfg} {s : Send} (h : OkPlain c s) :
+    (s.opcode = 1 ∨ s.opcode = 2) ∨ (s.opcode = 8 ∨ s.opcode = 9 ∨ s.opcode = 10) ∧ s.payload.length ≤ 125 := by
+  obtain ⟨_, hk⟩ := h
+  rcases hk with ⟨hd, _, _⟩ | ⟨hpp, hl⟩ | ⟨h8, hl, _⟩
+  · exact Or.inl hd
+  · exact Or.inr ⟨by rcases hpp with h | h <;> simp [h], hl⟩
+  · exact Or.inr ⟨by simp [h8], hl⟩
+
+theorem loopK_plain_msg (c : Cfg) (k : K Z) (hidle : Idle k) (s : Send) (hok : OkPlain c s)
+    (useMask : Bool) (hkey : useMask = true → s.maskKey.length = 4) (rest : Bytes) (F : Nat)
+    (hF : need k (plainFrame useMask s ++ rest) < F) :
+    ∃ k', Idle k' ∧ k'.msgs = k.msgs ++ [toMsg s] ∧ k'.z = k.z ∧
+      loopK c F k (plainFrame useMask s ++ rest) = loopK c (fuelFor rest) k' rest := by
+  obtain ⟨hph, hfr, hpm, hopc, hff⟩ := hidle
+  have hn : s.payload.length < 2 ^ 63 := hok.1
+  let n := s.payload.length
+  let mb := if useMask then 0x80 else 0
+  have hmb : mb ∈ [0, 128] := by cases useMask <;> simp [mb]
+  obtain ⟨g1, g2, g3⟩ := b1_facts (lenCode n) (lenCode_lt n) mb hmb
+  have hb1a : ((lenCode n ||| mb).toUInt8).toNat / 128 = mb / 128 := by rw [toUInt8_toNat_lt g1]; exact g2
+  have hb1b : ((lenCode n ||| mb).toUInt8).toNat % 128 = lenCode n := by rw [toUInt8_toNat_lt g1]; exact g3
+  have hmask : decide (mb / 128 = 1) = useMask := by cases useMask <;> simp [mb]
+  have hshape : plainFrame useMask s ++ rest =
+      (0x80 ||| 0 ||| s.opcode).toUInt8 :: (lenCode n ||| mb).toUInt8 ::
+        (extBytes n ++ (wirePayload useMask s.maskKey s.payload ++ rest)) := by
+    unfold plainFrame; rw [frameHeader_eq]; simp [n, mb]
+  rw [hshape] at hF ⊢
+  rcases okPlain_opcode hok with hd | ⟨hctl, hl125⟩
+  · -- data frame
+    have hh := hdrCore_data c k s.opcode 0 hd (Or.inl rfl) (by intro h; cases h) hff (lenCode n ||| mb).toUInt8
+    rw [hb1a, hb1b, hmask] at hh
+    have hsz : c.maxMsgSize = 0 ∨ n < c.maxMsgSize := by
+      obtain ⟨_, hk⟩ := hok
+      rcases hk with ⟨_, hsz, _⟩ | ⟨hpp, _⟩ | ⟨h8, _, _⟩
+      · exact hsz
+      · rcases hd with h | h <;> rcases hpp with h' | h' <;> omega
+      · rcases hd with h | h <;> omega
+    have hs : lenCore c { k with compressed := some (decide ((0:Nat) = 64)), frameFin := true, frameOpcode := s.opcode, hasMask := useMask, lenFlag := lenCode n, phase := .len } n = .ok
+        { k with compressed := some (decide ((0:Nat) = 64)), frameFin := true, frameOpcode := s.opcode, hasMask := useMask, lenFlag := lenCode n, toRead := n, phase := if useMask then .mask else .payload } := by
+      unfold lenCore
+      have : ¬ (c.maxMsgSize ≠ 0 ∧ (s.opcode = 1 ∨ s.opcode = 2 ∨ s.opcode = 0) ∧ n ≥ c.maxMsgSize - k.partialMsg.length) := by
+        rw [hpm]; simp; intro h1 _; rcases hsz with h | h
+        · exact absurd h h1
+        · omega
+      simp only [this, if_false]
+    have := loopK_frame c k _ _ _ _ n useMask s.maskKey s.payload rest F hph hh rfl rfl hfr hn rfl hkey hs hF
+    rw [this]
+    unfold afterFrame
+    have hp := handle_plain c ({ ({ k with compressed := some (decide ((0:Nat) = 64)), frameFin := true, frameOpcode := s.opcode, hasMask := useMask, lenFlag := lenCode n, toRead := n, phase := if useMask then .mask else .payload } : K Z) with toRead := 0, frags := [], phase := .payload, mask := if useMask then s.maskKey else k.mask }) s hok hpm hopc rfl
+      (by intro _; exact ⟨by simp, rfl⟩)
+    simp only [] at hp
+    rw [hp]
+    refine ⟨_, ⟨rfl, rfl, ?_, ?_, Or.inl rfl⟩, ?_, ?_, rfl⟩
+    · simp [deliver, hpm]
+    · simp [deliver, hopc]
+    · simp [deliver]
+    · simp [deliver]
+  · -- control frame
+    have hl : lenCode n = n := by unfold lenCode; simp [n]; omega
+    have hh := hdrCore_ctl c k s.opcode hctl (lenCode n ||| mb).toUInt8 (by rw [hb1b, hl]; exact hl125)
+    rw [hb1a, hb1b, hmask] at hh
+    have hs : lenCore c { k with frameOpcode := s.opcode, hasMask := useMask, lenFlag := lenCode n, phase := .len } n = .ok
+        { k with frameOpcode := s.opcode, hasMask := useMask, lenFlag := lenCode n, toRead := n, phase := if useMask then .mask else .payload } := by
+      unfold lenCore
+      have : ¬ (c.maxMsgSize ≠ 0 ∧ (s.opcode = 1 ∨ s.opcode = 2 ∨ s.opcode = 0) ∧ n ≥ c.maxMsgSize - k.partialMsg.length) := by
+        intro ⟨_, h2, _⟩; rcases hctl with h | h | h <;> rcases h2 with h' | h' | h' <;> omega
+      simp only [this, if_false]
+    have := loopK_frame c k _ _ _ _ n useMask s.maskKey s.payload rest F hph hh rfl rfl hfr hn rfl hkey hs hF
+    rw [this]
+    unfold afterFrame
+    have hp := handle_plain c ({ ({ k with frameOpcode := s.opcode, hasMask := useMask, lenFlag := lenCode n, toRead := n, phase := if useMask then .mask else .payload } : K Z) with toRead := 0, frags := [], phase := .payload, mask := if useMask then s.maskKey else k.mask }) s hok hpm hopc rfl
+      (by intro h; rcases hctl with h' | h' | h' <;> omega)
+    simp only [] at hp
+    rw [hp]
+    refine ⟨_, ⟨rfl, rfl, ?_, ?_, ?_⟩, ?_, ?_, rfl⟩
+    · simp [deliver, hpm]
+    · simp [deliver, hopc]
+    · simpa [deliver] using hff
+    · simp [deliver]
+    · simp [deliver]
+
+/-- bytes of a sequence of uncompressed frames -/
+def plainWire (useMask : Bool) : List Send → Bytes
+  | [] => []
+  | s :: ss => plainFrame useMask s ++ plainWire useMask ss
+
+theorem loopK_plain_all (c : Cfg) (useMask : Bool) : ∀ (sends : List Send) (k : K Z) (F : Nat),
+    Idle k → (∀ s ∈ sends, OkPlain c s ∧ (useMask = true → s.maskKey.length = 4)) →
+    need k (plainWire useMask sends) < F →
+    ∃ k', Idle k' ∧ k'.msgs = k.msgs ++ sends.map toMsg ∧ k'.z = k.z ∧
+      loopK c F k (plainWire useMask sends) = { k := k', tail := [], exc := none } := by
+  intro sends
+  induction sends with
+  | nil =>
+    intro k F hidle _ hF
+    refine ⟨k, hidle, by simp, rfl, ?_⟩
+    obtain ⟨G, rfl⟩ : ∃ G, F = G + 1 := ⟨F - 1, by omega⟩
+    rw [loopK_succ]
+    have : microK c k (plainWire useMask []) = .need := by
+      unfold microK; simp only [hidle.1]; rfl
+    rw [this]; rfl
+  | cons s ss ih =>
+    intro k F hidle hall hF
+    have hs := hall s (by simp)
+    obtain ⟨k1, hi1, hm1, hz1, he1⟩ := loopK_plain_msg c k hidle s hs.1 useMask hs.2 (plainWire useMask ss) F hF
+    obtain ⟨k2, hi2, hm2, hz2, he2⟩ := ih k1 (fuelFor (plainWire useMask ss)) hi1
+      (fun x hx => hall x (by simp [hx])) (need_le_fuelFor _ _)
+    refine ⟨k2, hi2, ?_, by rw [hz2, hz1], ?_⟩
+    · rw [hm2, hm1]; simp
+    · show loopK c F k (plainFrame useMask s ++ plainWire useMask ss) = _
+      rw [he1, he2]
+
 end Aio.C11
